@@ -24,15 +24,15 @@ type Violation struct {
 
 // WorkerOut is what one worker process hands back to the coordinator.
 type WorkerOut struct {
-	Counters   map[string]int64  `json:"counters"`
-	Samples    []interface{}     `json:"samples"`
-	Violations []Violation       `json:"violations"`
-	NViolation int64             `json:"n_violation"`
-	Caps       []string          `json:"caps"`
-	Notes      []string          `json:"notes"`
+	Counters   map[string]int64    `json:"counters"`
+	Samples    []interface{}       `json:"samples"`
+	Violations []Violation         `json:"violations"`
+	NViolation int64               `json:"n_violation"`
+	Caps       []string            `json:"caps"`
+	Notes      []string            `json:"notes"`
 	Sets       map[string][]string `json:"sets"` // small named string sets (unioned by the coordinator)
-	Done       bool              `json:"done"`
-	Next       int64             `json:"next"` // first case index not yet handled (when !Done)
+	Done       bool                `json:"done"`
+	Next       int64               `json:"next"` // first case index not yet handled (when !Done)
 }
 
 func NewWorkerOut() *WorkerOut {
